@@ -19,11 +19,12 @@ impl Check for C18C {
         "C18"
     }
     fn stages(&self, _tier: Tier) -> Vec<String> {
-        vec!["codepoints".into(), "names".into(), "pitargets".into(), "head-xmlns".into(), "head-xml".into(), "head-p:".into()]
+        vec!["codepoints".into(), "slots".into(), "names".into(), "pitargets".into(), "head-xmlns".into(), "head-xml".into(), "head-p:".into()]
     }
     fn prepare(&self, stage: &str, tier: Tier, _input: &[String]) -> Box<dyn Space> {
         match stage {
             "codepoints" => Box::new(CodePoints),
+            "slots" => Box::new(Slots { points: slot_points(tier) }),
             "pitargets" => Box::new(Names::with(PI_ALPHABET, tier.pick(4, 5), &["pitarget", "element", "entity"])),
             "head-xmlns" => Box::new(Names::with_head("xmlns", TAIL_ALPHABET, tier.pick(2, 3), &["element", "endtag", "attribute", "xpath"])),
             "head-xml" => Box::new(Names::with_head("xml", TAIL_ALPHABET, tier.pick(2, 3), &["element", "attribute", "pitarget", "entity"])),
@@ -33,14 +34,190 @@ impl Check for C18C {
     }
     fn meta(&self) -> Meta {
         Meta {
-            rule: "stage codepoints: every Unicode scalar value (all 1,114,112; surrogates are not chars) x 5 public predicates against tables transcribed from productions [2],[4],[4a],[13],[81]; a state is non-trivial when at least one of the five reference predicates is true for it. stage names: every string of length <= L over 30 class representatives / range boundaries, used in 8 syntactic positions (element, end tag, attribute, PI target, entity decl+ref, notation, DOCTYPE, XPath name test); accept/reject and the reported name compared with reference Name/NCName/QName matchers; non-trivial = reference accepts in at least one position",
-            bounds_quick: "code points: none (total); names: length <= 3 over a 30 symbol alphabet; heads xmlns / xml / p: followed by every tail of length <= 2 over 12 class representatives",
-            bounds_thorough: "code points: none (total); names: length <= 4 over a 30 symbol alphabet; heads xmlns / xml / p: followed by every tail of length <= 3",
+            rule: "stage codepoints: every Unicode scalar value (all 1,114,112; surrogates are not chars) x 5 public predicates against tables transcribed from productions [2],[4],[4a],[13],[81]; a state is non-trivial when at least one of the five reference predicates is true for it. stage slots: every Unicode scalar value placed in each of 16 syntactic slots whose character class the parsers decide themselves (VersionNum, EncName first / later, decimal and hexadecimal CharRef digits, S in three places, PubidLiteral, SystemLiteral, EntityValue, CharData, AttValue, Comment, PI data, CDATA) and in two XPath expressions (between two numbers, inside a literal): the document is accepted iff the class of the production holds. stage names: every string of length <= L over 30 class representatives / range boundaries, used in 8 syntactic positions (element, end tag, attribute, PI target, entity decl+ref, notation, DOCTYPE, XPath name test); accept/reject and the reported name compared with reference Name/NCName/QName matchers; non-trivial = reference accepts in at least one position",
+            bounds_quick: "code points: none (total); slots: every scalar value below U+3400, every 16th beyond, both sides of every boundary of the reference tables and of every change point of eight std character predicates; names: length <= 3 over a 30 symbol alphabet; heads xmlns / xml / p: followed by every tail of length <= 2 over 12 class representatives",
+            bounds_thorough: "code points and slots: none (total: all 1,112,064 scalar values); names: length <= 4 over a 30 symbol alphabet; heads xmlns / xml / p: followed by every tail of length <= 3",
             assumptions: &[
                 "reference tables in /verif/mc/src/model/chars.rs are a faithful transcription of XML 1.0 5th ed. productions [2],[4],[4a],[13],[81]",
                 "PI target / entity / notation names: anything between NCName (Namespaces in XML) and Name (XML 1.0) may be accepted or rejected; element, attribute and XPath names must be exactly QName",
             ],
             unbounded_total: false,
+        }
+    }
+}
+
+// ---------------------------------------------------------------------------------------------
+
+/// every code point in every syntactic slot whose character class the parsers decide themselves (with nom's or std's
+/// character tests, not through xmlchar): the slot accepts the document iff the class of the production holds
+struct Slots {
+    points: Vec<u32>,
+}
+
+const SLOT_BLOCK: usize = 256;
+
+/// thorough: every scalar value.  quick: every scalar value below U+3400, every 16th beyond, both sides of every boundary of
+/// the reference tables and both sides of every point where one of std's character predicates (the ones a parser is likely to
+/// reach for) changes its answer -- so that every run of every such class is represented by its two ends.
+fn slot_points(tier: Tier) -> Vec<u32> {
+    if tier == Tier::Thorough {
+        return (0..0x110000u32).filter(|u| char::from_u32(*u).is_some()).collect();
+    }
+    let mut keep = vec![false; 0x110000];
+    for u in 0..0x3400usize {
+        keep[u] = true;
+    }
+    for u in (0x3400..0x110000usize).step_by(16) {
+        keep[u] = true;
+    }
+    for t in [chars::CHAR, chars::NAME_START, chars::NAME_EXTRA] {
+        for (a, b) in t {
+            for u in [a.saturating_sub(1), *a, *b, b + 1] {
+                if (u as usize) < keep.len() {
+                    keep[u as usize] = true;
+                }
+            }
+        }
+    }
+    let class = |c: char| -> [bool; 8] { [c.is_alphabetic(), c.is_numeric(), c.is_alphanumeric(), c.is_whitespace(), c.is_control(), c.is_uppercase(), c.is_lowercase(), c.is_digit(36)] };
+    let mut prev: Option<(u32, [bool; 8])> = None;
+    for u in 0..0x110000u32 {
+        if let Some(c) = char::from_u32(u) {
+            let k = class(c);
+            if let Some((pu, pk)) = prev {
+                if pk != k {
+                    keep[pu as usize] = true;
+                    keep[u as usize] = true;
+                }
+            }
+            prev = Some((u, k));
+        }
+    }
+    (0..0x110000u32).filter(|u| keep[*u as usize] && char::from_u32(*u).is_some()).collect()
+}
+
+struct Slot {
+    name: &'static str,
+    make: fn(char) -> String,
+    accept: fn(char) -> bool,
+}
+
+fn hexdigit(c: char) -> bool {
+    c.is_ascii_hexdigit()
+}
+
+const SLOTS: &[Slot] = &[
+    Slot { name: "P26.VersionNum", make: |c| format!("<?xml version='1.{}'?><r/>", c), accept: |c| c.is_ascii_digit() },
+    Slot { name: "P81.EncName-first", make: |c| format!("<?xml version='1.0' encoding='{}A'?><r/>", c), accept: |c| c.is_ascii_alphabetic() },
+    Slot { name: "P81.EncName-later", make: |c| format!("<?xml version='1.0' encoding='A{}'?><r/>", c), accept: |c| c.is_ascii_alphanumeric() || c == '.' || c == '_' || c == '-' },
+    Slot { name: "P66.CharRef-decimal", make: |c| format!("<r>&#5{};</r>", c), accept: |c| c.is_ascii_digit() },
+    Slot { name: "P66.CharRef-hex", make: |c| format!("<r>&#x4{};</r>", c), accept: hexdigit },
+    Slot { name: "P3.S-between-attributes", make: |c| format!("<r a='v'{}b='w'/>", c), accept: chars::is_space },
+    Slot { name: "P3.S-in-xmldecl", make: |c| format!("<?xml{}version='1.0'?><r/>", c), accept: chars::is_space },
+    Slot { name: "P3.S-in-doctype", make: |c| format!("<!DOCTYPE{}r><r/>", c), accept: chars::is_space },
+    Slot { name: "P12.PubidLiteral", make: |c| format!("<!DOCTYPE r PUBLIC '{}' 's'><r/>", c), accept: |c| chars::is_pubid_char(c) && c != '\'' },
+    Slot { name: "P11.SystemLiteral", make: |c| format!("<!DOCTYPE r SYSTEM '{}'><r/>", c), accept: |c| chars::is_char(c) && c != '\'' },
+    Slot { name: "P9.EntityValue", make: |c| format!("<!DOCTYPE r [<!ENTITY e '{}'>]><r/>", c), accept: |c| chars::is_char(c) && c != '\'' && c != '%' && c != '&' },
+    Slot { name: "P14.CharData", make: |c| format!("<r>{}</r>", c), accept: |c| chars::is_char(c) && c != '<' && c != '&' },
+    Slot { name: "P10.AttValue", make: |c| format!("<r a='{}'/>", c), accept: |c| chars::is_char(c) && c != '<' && c != '&' && c != '\'' },
+    Slot { name: "P15.Comment", make: |c| format!("<!--{}--><r/>", c), accept: |c| chars::is_char(c) && c != '-' },
+    Slot { name: "P16.PI-data", make: |c| format!("<?p {}?><r/>", c), accept: chars::is_char },
+    Slot { name: "P20.CData", make: |c| format!("<r><![CDATA[{}]]></r>", c), accept: chars::is_char },
+];
+
+impl Space for Slots {
+    fn len(&self) -> u64 {
+        self.points.len().div_ceil(SLOT_BLOCK) as u64
+    }
+    fn describe(&self, idx: u64) -> String {
+        let lo = idx as usize * SLOT_BLOCK;
+        let hi = (lo + SLOT_BLOCK).min(self.points.len());
+        format!(
+            "{} code points U+{:04X}..=U+{:04X} in the slots {:?} (e.g. {}) and in the XPath expressions 1<c>2 and string-length('<c>')",
+            hi - lo,
+            self.points[lo],
+            self.points[hi - 1],
+            SLOTS.iter().map(|s| s.name).collect::<Vec<_>>(),
+            obs::q(&(SLOTS[1].make)('U'))
+        )
+    }
+    fn run(&self, idx: u64, sink: &mut Sink) {
+        let lo = idx as usize * SLOT_BLOCK;
+        let hi = (lo + SLOT_BLOCK).min(self.points.len());
+        if idx == 0 {
+            sink.sample(|| self.describe(0));
+        }
+        let xdoc = obs::parse_dom("<r/>", true).1.expect("<r/>");
+        for &u in &self.points[lo..hi] {
+            let c = match char::from_u32(u) {
+                Some(c) => c,
+                None => continue,
+            };
+            sink.count("states", 1);
+            let mut any = false;
+            for slot in SLOTS {
+                let text = (slot.make)(c);
+                let want = (slot.accept)(c);
+                any |= want;
+                sink.count("transitions", 1);
+                match guard(|| obs::parse_info(&text).0) {
+                    Ok(p) => {
+                        sink.count("validated", 1);
+                        let got = p == obs::Parsed::Complete;
+                        if got != want {
+                            let class = if c.is_ascii() { format!("U+{:04X}", u) } else if c.is_alphabetic() { "non-ascii-alphabetic".to_string() } else if c.is_numeric() { "non-ascii-numeric".to_string() } else if c.is_whitespace() { "non-ascii-whitespace".to_string() } else { "non-ascii-other".to_string() };
+                            sink.finding(Finding {
+                                sig: format!("slot-{}/{}/{}", if got { "accepts" } else { "rejects" }, slot.name, class),
+                                what: format!("the parser {} U+{:04X} in {}", if got { "accepts" } else { "rejects" }, u, slot.name),
+                                case: obs::q(&text),
+                                expected: if want { "accepted".into() } else { "refused".into() },
+                                observed: format!("{:?}", p),
+                            });
+                        }
+                    }
+                    Err(m) => sink.finding(Finding {
+                        sig: format!("panic/{}/{}", panic_site(&m), slot.name),
+                        what: "the parser panicked".into(),
+                        case: obs::q(&text),
+                        expected: "a document or an error".into(),
+                        observed: m,
+                    }),
+                }
+            }
+            // XPath: no character outside ASCII separates or joins two numbers; a literal holds any character
+            if !c.is_ascii() {
+                sink.count("transitions", 1);
+                let e = format!("1{}2", c);
+                let r = guard(|| xml_xpath::query(xdoc.clone(), &e, &mut xml_xpath::eval::model::Context::default()).map(|v| format!("{}", v)).map_err(|e| format!("{:?}", e)));
+                sink.count("validated", 1);
+                if !matches!(r, Ok(Err(_))) {
+                    sink.finding(Finding {
+                        sig: format!("slot-accepts/xpath-between-numbers/{}", if c.is_whitespace() { "non-ascii-whitespace" } else if c.is_numeric() { "non-ascii-numeric" } else { "non-ascii-other" }),
+                        what: format!("the XPath parser accepts U+{:04X} between two numbers", u),
+                        case: obs::q(&e),
+                        expected: "an error".into(),
+                        observed: format!("{:?}", r),
+                    });
+                }
+            }
+            if c != '\'' {
+                sink.count("transitions", 1);
+                let e = format!("string-length('{}')", c);
+                let r = guard(|| xml_xpath::query(xdoc.clone(), &e, &mut xml_xpath::eval::model::Context::default()).map(|v| format!("{}", v)).map_err(|e| format!("{:?}", e)));
+                sink.count("validated", 1);
+                if r != Ok(Ok("1".to_string())) {
+                    sink.finding(Finding {
+                        sig: format!("xpath-literal/{}", if c.is_ascii() { format!("U+{:04X}", u) } else { "non-ascii".into() }),
+                        what: format!("an XPath literal holding U+{:04X} is not a string of one character", u),
+                        case: obs::q(&e),
+                        expected: "1".into(),
+                        observed: format!("{:?}", r),
+                    });
+                }
+            }
+            if any {
+                sink.count("nontrivial", 1);
+            }
         }
     }
 }
